@@ -37,13 +37,7 @@ def rule_R1(ctx, prj):
                     ok = True
                 elif l_.endswith("['loc']"):
                     base = l_[: -len("['loc']")]
-                    mname = unparse(ms)
-                    # measurements list is filled from base['measurements'] in this function
-                    loops = [l for l in fi.walk() if isinstance(l, ast.For) and unparse(l.iter) == f"{base}['measurements']"]
-                    apps = [a for l in loops for a in ast.walk(l) if isinstance(a, ast.Call) and isinstance(a.func, ast.Attribute)
-                            and a.func.attr == "append" and unparse(a.func.value) == mname]
-                    comp = any(isinstance(v, ast.ListComp) and unparse(v.generators[0].iter) == f"{base}['measurements']" for v, _ in local_defs(fi, mname) if v is not None)
-                    ok = ok or bool(apps) or comp
+                    ok = ok or (isinstance(ms, ast.Name) and _filled_from(fi, ms.id, f"{base}['measurements']"))
                 if ok:
                     lt, mt = l_, m_
                     break
@@ -53,6 +47,26 @@ def rule_R1(ctx, prj):
                 ctx.viol("R1", key, fi.site(c), f"the entry's line total is {lt[:70]} while its measurements are {mt}: the total is not the sum of the lengths stored with it")
     if n < 3:
         raise AnalysisError(f"only {n} SourceFileEntry constructions found on the scan/read paths (3 confirmed by reading)")
+
+
+def _filled_from(fi: FuncInfo, name: str, source: str, depth=0) -> bool:
+    """local list `name` holds one element per element of `source` (comprehension, or [] + append in a loop over it,
+    possibly through aliases)"""
+    if depth > 4:
+        return False
+    for v, _ in local_defs(fi, name):
+        if v is None:
+            continue
+        if isinstance(v, ast.ListComp) and len(v.generators) == 1 and unparse(v.generators[0].iter) == source:
+            return True
+        if isinstance(v, ast.Name) and _filled_from(fi, v.id, source, depth + 1):
+            return True
+    for l in fi.walk():
+        if isinstance(l, ast.For) and unparse(l.iter) == source:
+            for a in ast.walk(l):
+                if isinstance(a, ast.Call) and isinstance(a.func, ast.Attribute) and a.func.attr == "append" and unparse(a.func.value) == name:
+                    return True
+    return False
 
 
 def _is_sum_of_values(le, me) -> bool:
